@@ -71,6 +71,44 @@ def _replay_store(ix):
     out = {'reads': 0, 'viol': [], 'desync': 0, 'mech_reads': 0, 'mech_reads_agree': 0, 'disk_agree': 0, 'faults': {}, 'sample': None}
     hist = t['hist']
     written = [[u for u in units if u[0] not in ('{', '}', '!')] for units in t['init']]
+
+    def expected_after(p, k):
+        """where the model says process p stands after event k: ('pre_open', path) / ('opened', path) / ('flushed', None) / ('done', None)"""
+        e = hist[k]
+        if e['op'] in ('begin', 'fail'):
+            nxt = [f for f in hist[k + 1:] if f['p'] == p]
+            if nxt and nxt[0]['op'] == 'open':
+                return 'pre_open', world.paths[nxt[0]['path'] - 1]
+            # the model stands before an open that the history does not show any more, or the write is over
+            return ('pre_open' if (e['op'] == 'begin' and t['unblocked']) or (e['op'] == 'fail' and e.get('more') == 1) else 'done'), None
+        if e['op'] == 'open':
+            return 'opened', world.paths[e['path'] - 1]
+        if e['op'] == 'flush':
+            return 'flushed', None
+        return 'done', None
+
+    def advance(p, k, first=False):
+        """let the real process run until it stands where the model says it stands after event k (an implementation
+        may take more or fewer steps than the model: extra stops are passed over and counted)"""
+        want, path = expected_after(p, k)
+        n = 0
+        while n < 40:
+            if not first:
+                procs[p].send({'op': 'go'})
+            first = False
+            msg = procs[p].recv()
+            n += 1
+            if 'done' in msg:
+                state[p] = 'idle'
+                if msg.get('arg_after') != msg.get('arg_before'):
+                    out['viol'].append(('write_argument_changed', {'op': 'write', 'fault': 'none'}, msg))
+                if want != 'done':
+                    out['desync'] += 1
+                return
+            if msg.get('at') == want and (path is None or msg.get('path') == path):
+                break
+        out['desync'] += n - 1
+
     try:
         for k, e in enumerate(hist):
             op, p = e['op'], e['p']
@@ -92,36 +130,16 @@ def _replay_store(ix):
                         break
                 written.append(e['cfg'])
                 procs[p].send({'op': 'write', 'cfg': e['cfg'], 'stepwise': 1, 'cuts': cuts})
-                msg = procs[p].recv()
-                state[p] = 'idle' if 'done' in msg else 'stopped'
-                if 'done' in msg and msg.get('arg_after') != msg.get('arg_before'):
-                    out['viol'].append(('write_argument_changed', {'op': 'write', 'fault': 'none'}, msg))
-                if msg.get('at') != 'pre_open':
-                    out['desync'] += 1
+                state[p] = 'stopped'
+                advance(p, k, first=True)
             elif op in ('open', 'flush', 'fail', 'close'):
-                want = {'open': 'opened', 'flush': 'flushed'}.get(op)
-                n = 0
-                while state[p] == 'stopped':
-                    procs[p].send({'op': 'go'})
-                    msg = procs[p].recv()
-                    n += 1
-                    if 'done' in msg:
-                        state[p] = 'idle'
-                        if msg.get('arg_after') != msg.get('arg_before'):
-                            out['viol'].append(('write_argument_changed', {'op': 'write', 'fault': 'none'}, msg))
-                        if op not in ('close', 'fail'):
-                            out['desync'] += 1
-                        break
-                    if op == 'close' and n < 50:
-                        continue                      # an implementation with more steps than the model: run it to its end
-                    if want and msg.get('at') != want:
-                        out['desync'] += 1
-                    break
+                if state[p] == 'stopped':
+                    advance(p, k)
             elif op == 'crash':
                 procs[p].kill(); state[p] = 'dead'
             elif op == 'read':
                 if state.get(p) != 'idle':
-                    raise Machinery('history asks process %s to read while it is %s' % (p, state.get(p)))
+                    raise Machinery('history asks process %s to read while it is %s: %s' % (p, state.get(p), json.dumps(_slim(hist))))
                 r = procs[p].call({'op': 'read'})
                 out['reads'] += 1
                 fault = e['fault']
@@ -169,7 +187,8 @@ def s2c_store(ctx, emitted, label, npaths, blocked, sample=None):
                 if groups[k] and len(picked) < sample:
                     picked.append(groups[k].pop())
         leaves = picked
-    _TASKS = [{'init': e['init'], 'hist': e['hist'], 'disk': e['disk'], 'npaths': npaths, 'blocked': list(blocked)} for e in leaves]
+    _TASKS = [{'init': e['init'], 'hist': e['hist'], 'disk': e['disk'], 'npaths': npaths, 'blocked': list(blocked),
+               'unblocked': npaths - len(blocked)} for e in leaves]
     res = _pmap(_replay_store, list(range(len(_TASKS))))
     faults = {}
     for i, r in enumerate(res):
